@@ -22,7 +22,9 @@ import mlzlog  # noqa: E402
 
 from frappy.lib import generalConfig  # noqa: E402
 
-generalConfig.testinit(logdir=SCRATCH + '/log', piddir=SCRATCH + '/pid', confdir=[SCRATCH + '/cfg'])
+from pathlib import Path  # noqa: E402
+
+generalConfig.testinit(logdir=Path(SCRATCH) / 'log', piddir=Path(SCRATCH) / 'pid', confdir=[Path(SCRATCH) / 'cfg'])
 
 import frappy.lib  # noqa: E402
 import frappy.lib.asynconn as asynconn  # noqa: E402
